@@ -822,7 +822,9 @@ pub fn history(depth: usize) -> Value {
     let batches: Vec<Vec<(i64, i64)>> = vec![
         (0..5).map(|i| (2 * i, i % 3)).collect(), (0..5).map(|i| (2 * i + 1, i % 2)).collect(), (10..16).map(|i| (i, 2)).collect()];
     let dels: Vec<(&str, Box<dyn Fn(i64, i64) -> bool>)> = vec![
-        ("k < 3", Box::new(|k, _| k < 3)), ("v = 1", Box::new(|_, v| v == 1)), ("k >= 4 and k <= 11", Box::new(|k, _| k >= 4 && k <= 11)), ("k >= 0", Box::new(|k, _| k >= 0))];
+        ("k < 3", Box::new(|k, _| k < 3)), ("v = 1", Box::new(|_, v| v == 1)), ("k >= 4 and k <= 11", Box::new(|k, _| k >= 4 && k <= 11)), ("k >= 0", Box::new(|k, _| k >= 0)),
+        // every row of the third batch (a RowSet that is deleted entirely)
+        ("v = 2", Box::new(|_, v| v == 2))];
     let mut alphabet: Vec<Op> = vec![];
     for i in 0..batches.len() { alphabet.push(Op::Ins(i)); }
     for i in 0..dels.len() { alphabet.push(Op::Del(i)); }
